@@ -29,3 +29,32 @@ Proof.
   now rewrite generated_cond_is_model.
 Qed.
 Print Assumptions generated_step_is_model.
+
+(** [safe_max] as written in src/uberjob/_util/__init__.py (compiled to [gen_safe_max] in StaleGen.v) is the model's [smax_list]: the
+    maximum of the times that exist, [None] when there is none - whatever the order of the values and wherever the [None]s are. *)
+Lemma fold_left_max_assoc (r : list Z) (x y : Z) : fold_left Z.max r (Z.max x y) = Z.max x (fold_left Z.max r y).
+Proof.
+  revert x y; induction r as [|a r IH]; intros x y; cbn [fold_left]; [reflexivity|].
+  rewrite <- Z.max_assoc. apply IH.
+Qed.
+
+Theorem generated_safe_max_is_model (l : list (option Z)) : gen_safe_max l = smax_list l.
+Proof.
+  unfold gen_safe_max, smax_list.
+  induction l as [|a l IH]; [reflexivity|].
+  cbn [fold_right]. rewrite <- IH. clear IH.
+  destruct a as [x|]; cbn [py_not_none flat_map app]; fold (py_not_none l).
+  - destruct (py_not_none l) as [|y r]; cbn [py_max_default_none smax fold_left]; [reflexivity|].
+    now rewrite fold_left_max_assoc.
+  - destruct (py_max_default_none (py_not_none l)); reflexivity.
+Qed.
+Print Assumptions generated_safe_max_is_model.
+
+(** The stale step with the source's own [safe_max] in the place where caching.py calls it. *)
+Theorem generated_step_on_source_safe_max (reg : registry) (sg : sstate) (fresh : option Z) (acc : list sinfo) (i : nat) (nd : node) :
+  gen_process (existsb (fun j => fst (slook acc j)) (preds_of nd))
+              (match reg i with None => None | Some e => Some (is_src e, mtime sg (store e)) end)
+              (gen_safe_max (map (fun j => snd (slook acc j)) (preds_of nd))) fresh
+  = stale_step reg sg fresh acc i nd.
+Proof. rewrite generated_safe_max_is_model. apply generated_step_is_model. Qed.
+Print Assumptions generated_step_on_source_safe_max.
